@@ -77,6 +77,16 @@ def run_cfg(ctx, p, cfg):
                         if any(x[0] == "call" and x[1] == REPLACE for x in walk(a)):
                             r.require(any(x[0] == "call" and x[1] == EXPAND for x in walk(a)), "roller-path-expanded:%s:arg%d" % (common.role(c), i), fn=rot, site=c.at,
                                       detail="pattern-derived path passes through expand_env_vars")
+            # .. and nothing asks the file system about a name that was substituted but not expanded (an existence test on the raw
+            # name answers about a file that is never written)
+            for c in rot.calls():
+                cal = c.callee or ""
+                if cal.startswith("std::fs::") or cal.startswith("std::path::Path::") and cal.rsplit("::", 1)[-1] in ("exists", "try_exists", "is_file", "is_dir", "metadata", "symlink_metadata", "read_dir"):
+                    for i, a in enumerate(c.arg_exprs()):
+                        if any(x[0] == "call" and x[1] == REPLACE for x in walk(a)):
+                            r.require(any(x[0] == "call" and x[1] == EXPAND for x in walk(a)), "file-system-sees-expanded-names-only:%s:arg%d" % (common.role(c), i), fn=rot, site=c.at,
+                                      detail="%s is asked about a pattern-derived name that went through expand_env_vars" % cal,
+                                      fail_detail="%s is asked about pattern.replace(..) without expand_env_vars: with a reference in the pattern it answers about a name that is never used" % cal)
             pats = [c for c in rot.calls(REPLACE)]
             for c in pats:
                 # each replace("{}", idx) result feeds expand_env_vars
